@@ -201,7 +201,7 @@ def clientLoop (mech : Mech) (hist : List Bytes) : List CEv → CRes
       match (mech (hist ++ [c])).kind with
       | .more => (clientLoop mech (hist ++ [c]) rest).after [.response ((mech (hist ++ [c])).resp)]
       | .done => (readFinal (hist ++ [c]) rest).after [.response ((mech (hist ++ [c])).resp)]
-      | .authnErr => fail .mechErr (hist ++ [c]) 1
+      | .authnErr => fail .authnErr (hist ++ [c]) 1
       | .otherErr => fail (stepErr (mech (hist ++ [c]))) (hist ++ [c]) 1
   | .success p :: _ =>
     match p.decodeClient with
@@ -210,7 +210,7 @@ def clientLoop (mech : Mech) (hist : List Bytes) : List CEv → CRes
       match (mech (hist ++ [c])).kind with
       | .more => fail .unexpected (hist ++ [c]) 1
       | .done => { authn := true, hist := hist ++ [c], consumed := 1 }
-      | .authnErr => fail .mechErr (hist ++ [c]) 1
+      | .authnErr => fail .authnErr (hist ++ [c]) 1
       | .otherErr => fail (stepErr (mech (hist ++ [c]))) (hist ++ [c]) 1
   | .failure b :: _ => fail (failErr b) hist 1
   | .other :: _ => fail .unexpected hist 1
@@ -224,7 +224,7 @@ def clientNeg (cm : List (String × Mech)) (adv : List String) (peer : List CEv)
   | some (name, mech) =>
     if name = "" then fail .nomech [] 0 else
     match (mech []).kind with
-    | .authnErr => { fail .mechErr [] 0 with used := some name }
+    | .authnErr => { fail .authnErr [] 0 with used := some name }
     | .otherErr => { fail (stepErr (mech [])) [] 0 with used := some name }
     | .more =>
       let r := clientLoop mech [] peer
@@ -271,7 +271,7 @@ def clientLoopE (mech : Mech) : CEnv → Nat → List Bytes → List CEv → CRe
           if env.canWrite then
             (readFinal (hist ++ [c]) rest).after [.response ((mech (hist ++ [c])).resp)]
           else fail .writeErr (hist ++ [c]) 1
-        | .authnErr => fail .mechErr (hist ++ [c]) 1
+        | .authnErr => fail .authnErr (hist ++ [c]) 1
         | .otherErr => fail (stepErr (mech (hist ++ [c]))) (hist ++ [c]) 1
     | .success p :: _ =>
       match p.decodeClient with
@@ -280,7 +280,7 @@ def clientLoopE (mech : Mech) : CEnv → Nat → List Bytes → List CEv → CRe
         match (mech (hist ++ [c])).kind with
         | .more => fail .unexpected (hist ++ [c]) 1
         | .done => { authn := true, hist := hist ++ [c], consumed := 1 }
-        | .authnErr => fail .mechErr (hist ++ [c]) 1
+        | .authnErr => fail .authnErr (hist ++ [c]) 1
         | .otherErr => fail (stepErr (mech (hist ++ [c]))) (hist ++ [c]) 1
     | .failure b :: _ => fail (failErr b) hist 1
     | .other :: _ => fail .unexpected hist 1
@@ -294,7 +294,7 @@ def clientNegE (env : CEnv) (cm : List (String × Mech)) (adv : List String) (pe
   | some (name, mech) =>
     if name = "" then fail .nomech [] 0 else
     match (mech []).kind with
-    | .authnErr => { fail .mechErr [] 0 with used := some name }
+    | .authnErr => { fail .authnErr [] 0 with used := some name }
     | .otherErr => { fail (stepErr (mech [])) [] 0 with used := some name }
     | .more =>
       if env.canWrite then
